@@ -40,9 +40,13 @@ func (f BalancerFunc) Balance(msg Message, partitions ...int) int {
 // This can be used to improve batch sizes.
 type RoundRobin struct {
 	ChunkSize int
-	// Use a 32 bits integer so RoundRobin values don't need to be aligned to
-	// apply increments.
-	counter uint32
+	// index is the position, in the partition list, of the partition that
+	// the current chunk of messages goes to, count is the number of messages
+	// of that chunk routed so far. Keeping the position instead of a count of
+	// the calls made means that nothing can wrap around, however long the
+	// balancer is used.
+	index int
+	count int
 
 	mutex sync.Mutex
 }
@@ -60,11 +64,16 @@ func (rr *RoundRobin) balance(partitions []int) int {
 		rr.ChunkSize = 1
 	}
 
-	length := len(partitions)
-	counterNow := rr.counter
-	offset := int(counterNow / uint32(rr.ChunkSize))
-	rr.counter++
-	return partitions[offset%length]
+	if rr.count >= rr.ChunkSize {
+		// The chunk is complete, the next one goes to the next partition.
+		rr.count = 0
+		rr.index++
+	}
+	if rr.index >= len(partitions) {
+		rr.index = 0
+	}
+	rr.count++
+	return partitions[rr.index]
 }
 
 // LeastBytes is a Balancer implementation that routes messages to the partition
